@@ -37,11 +37,59 @@ SLICES = [
     dict(name="an_mean", func=SST, target="tfftp[:, 0, 0]", occ=0, params=["p000", "tfftq0_0_0", "Kzinv", "h"]),
     dict(name="shift_fp", func=SST, target="shift", occ=0, params=["Lx", "Ly", "xm", "ym", "px", "py", "dx", "dy"]),
     dict(name="shift_ctr", func=SST, target="shift", occ=1, params=["Lx", "Ly", "xm", "ym", "xmx", "ymx"]),
+    # guard of the re-centring shift:  elif xm**2 + ym**2 > 0.0
+    dict(name="recentre_guard", func=SST, iftest=r"xm\s*\*\*\s*2", params=["xm", "ym"]),
+]
+
+
+# integer index arithmetic of the plumbing (backend "Z"): sizes, band start, slice bounds, pad widths, crop
+ZSLICES = [
+    # conditions: parity check of the requested modes, clamp
+    dict(name="modes_odd", func=SST, iftest=r"nlx % 2", params=["nlx", "nly"]),
+    dict(name="clamp_cond", func=SST, iftest=r"nlx > nxe", params=["nlx", "nly", "nxe", "nye"]),
+    dict(name="nxe", func=SST, target="nxe", params=["nx", "px"]),
+    dict(name="nye", func=SST, target="nye", params=["ny", "py"]),
+    dict(name="dlx", func=SST, target="dlx", params=["nxe", "nlx"]),
+    dict(name="dly", func=SST, target="dly", params=["nye", "nly"]),
+    # q0 = np.pad(q0, ((py, py), (px, px)), ...)
+    dict(name="srcpad_y_lo", func=SST, target="q0", occ=1, path=[("arg", 1), ("elt", 0), ("elt", 0)], params=["py"]),
+    dict(name="srcpad_y_hi", func=SST, target="q0", occ=1, path=[("arg", 1), ("elt", 0), ("elt", 1)], params=["py"]),
+    dict(name="srcpad_x_lo", func=SST, target="q0", occ=1, path=[("arg", 1), ("elt", 1), ("elt", 0)], params=["px"]),
+    dict(name="srcpad_x_hi", func=SST, target="q0", occ=1, path=[("arg", 1), ("elt", 1), ("elt", 1)], params=["px"]),
+    # tfftq0 = fftq0[dly : dly + nly, dlx : dlx + nlx]
+    dict(name="trunc_y_lo", func=SST, target="tfftq0", occ=1, path=[("slice", 0, "lower")], params=["dly"]),
+    dict(name="trunc_y_hi", func=SST, target="tfftq0", occ=1, path=[("slice", 0, "upper")], params=["dly", "nly"]),
+    dict(name="trunc_x_lo", func=SST, target="tfftq0", occ=1, path=[("slice", 1, "lower")], params=["dlx"]),
+    dict(name="trunc_x_hi", func=SST, target="tfftq0", occ=1, path=[("slice", 1, "upper")], params=["dlx", "nlx"]),
+    # fftp = np.pad(tfftp, ((0, 0), (dly, nye - nly - dly), (dlx, nxe - nlx - dlx)), ...)
+    dict(name="unpad_l_lo", func=SST, target="fftp", occ=0, path=[("arg", 1), ("elt", 0), ("elt", 0)], params=[]),
+    dict(name="unpad_l_hi", func=SST, target="fftp", occ=0, path=[("arg", 1), ("elt", 0), ("elt", 1)], params=[]),
+    dict(name="unpad_y_lo", func=SST, target="fftp", occ=0, path=[("arg", 1), ("elt", 1), ("elt", 0)], params=["dly"]),
+    dict(name="unpad_y_hi", func=SST, target="fftp", occ=0, path=[("arg", 1), ("elt", 1), ("elt", 1)], params=["nye", "nly", "dly"]),
+    dict(name="unpad_x_lo", func=SST, target="fftp", occ=0, path=[("arg", 1), ("elt", 2), ("elt", 0)], params=["dlx"]),
+    dict(name="unpad_x_hi", func=SST, target="fftp", occ=0, path=[("arg", 1), ("elt", 2), ("elt", 1)], params=["nxe", "nlx", "dlx"]),
+    dict(name="unpadq_y_lo", func=SST, target="fftq", occ=0, path=[("arg", 1), ("elt", 1), ("elt", 0)], params=["dly"]),
+    dict(name="unpadq_y_hi", func=SST, target="fftq", occ=0, path=[("arg", 1), ("elt", 1), ("elt", 1)], params=["nye", "nly", "dly"]),
+    dict(name="unpadq_x_lo", func=SST, target="fftq", occ=0, path=[("arg", 1), ("elt", 2), ("elt", 0)], params=["dlx"]),
+    dict(name="unpadq_x_hi", func=SST, target="fftq", occ=0, path=[("arg", 1), ("elt", 2), ("elt", 1)], params=["nxe", "nlx", "dlx"]),
+    # conc = p[:, py : nye - py, px : nxe - px]   flx = q[...]
+    dict(name="crop_c_y_lo", func=SST, target="conc", path=[("slice", 1, "lower")], params=["py"]),
+    dict(name="crop_c_y_hi", func=SST, target="conc", path=[("slice", 1, "upper")], params=["nye", "py"]),
+    dict(name="crop_c_x_lo", func=SST, target="conc", path=[("slice", 2, "lower")], params=["px"]),
+    dict(name="crop_c_x_hi", func=SST, target="conc", path=[("slice", 2, "upper")], params=["nxe", "px"]),
+    dict(name="crop_f_y_lo", func=SST, target="flx", path=[("slice", 1, "lower")], params=["py"]),
+    dict(name="crop_f_y_hi", func=SST, target="flx", path=[("slice", 1, "upper")], params=["nye", "py"]),
+    dict(name="crop_f_x_lo", func=SST, target="flx", path=[("slice", 2, "lower")], params=["px"]),
+    dict(name="crop_f_x_hi", func=SST, target="flx", path=[("slice", 2, "upper")], params=["nxe", "px"]),
 ]
 
 
 def generate():
     return py2coq.translate(SOLVER(), SLICES, "ops")
+
+
+def generate_z():
+    return py2coq.translate(SOLVER(), ZSLICES, "Z")
 
 
 def run(ctx):
@@ -52,4 +100,11 @@ def run(ctx):
         ctx.obligation("gen:GenSolver.v", False, "slice translator failed closed: %s" % e)
         return False
     ctx.cov["slices_translated"] = ctx.cov.get("slices_translated", 0) + len(SLICES)
-    return core.run_bridge(ctx, {"GenSolver.v": text}, ["SolverBridge.v"])
+    ok = core.run_bridge(ctx, {"GenSolver.v": text}, ["SolverBridge.v"])
+    try:
+        ztext = generate_z()
+    except py2coq.TranslateError as e:
+        ctx.obligation("gen:GenPlumb.v", False, "slice translator failed closed: %s" % e)
+        return False
+    ctx.cov["slices_translated"] += len(ZSLICES)
+    return core.run_bridge(ctx, {"GenPlumb.v": ztext}, ["PlumbBridge.v"]) and ok
